@@ -303,7 +303,7 @@ fn fingerprint(bufs: &[Vec<u8>]) -> String {
 // Classifier: which top-level field of the serialized struct contains the first differing byte
 // ------------------------------------------------------------------------------------------------
 
-const FIELDS: [&str; 19] = [
+const FIELDS: [&str; 21] = [
     "csp",
     "exceptions",
     "importants",
@@ -323,6 +323,8 @@ const FIELDS: [&str; 19] = [
     "scriptlets",
     "procedural_action",
     "procedural_action_exception",
+    "removeparam",
+    "inject_script_permissions",
 ];
 
 fn be(b: &[u8], p: usize, n: usize) -> Option<usize> {
@@ -712,7 +714,7 @@ fn self_check(wide: &[Vec<&'static str>]) -> Result<(), String> {
     let all: Vec<RuleRef> = wide.last().unwrap().iter().map(|r| (r.to_string(), Fm::Std)).collect();
     let b = build_and_serialize(&all, CFGS[1])?;
     let buf = &b[0];
-    if field_at(buf, buf.len() - 1) != "procedural_action_exception" || field_at(buf, 6) != "csp" {
+    if field_at(buf, buf.len() - 1) != *FIELDS.last().unwrap() || field_at(buf, 6) != "csp" {
         return Err(format!("msgpack walker does not parse a real buffer: last byte is in {:?}", field_at(buf, buf.len() - 1)));
     }
     // the wide list must really be wide: its buffer differs when any single rule is left out
